@@ -189,9 +189,6 @@ func VerifC05_FinishTogether() {
 		return
 	}
 	verifReach("C05/together/started")
-	if verifTier() > 0 {
-		verifSchedBound(2) // thorough: every pair of preemptions
-	}
 	var barrier sync.WaitGroup
 	barrier.Add(2)
 	verifStepBarrier = &barrier
